@@ -368,6 +368,10 @@ class _rewrite_captured_vars(ast.NodeTransformer):
                 # If it is something we know how to make into a literal, we just send it down
                 # like that.
                 return as_literal(v)
+            elif self._is_registered_function(node.id, v):
+                # A function registered for use in queries (`func_adl_callable`) stays a call by
+                # name whatever its python body is: its processor runs at the call site.
+                return node
             elif (
                 callable(v)
                 and not any(v is f for f in self._inlining)
@@ -539,6 +543,14 @@ class _rewrite_captured_vars(ast.NodeTransformer):
                     )
 
         return rewritten_call
+
+    @staticmethod
+    def _is_registered_function(name: str, v: Any) -> bool:
+        "Is `v` the function registered under `name` with `register_func_adl_function`?"
+        from . import type_based_replacement
+
+        info = type_based_replacement._global_functions.get(name, None)
+        return info is not None and info.function is v
 
     def is_arg(self, a_name: str) -> bool:
         "If the arg is on the stack, then return true"
